@@ -472,12 +472,15 @@ def _inlinable(mod, name):
         sums = summarise(f, inline=False)
     except Exception:
         return None
-    if len(sums) != 1 or sums[0].kind != "return" or any(e for e in sums[0].effects if "(" not in e):
+    if len(sums) != 1 or sums[0].kind != "return" or sums[0].effects:
         return None
     try:
         expr = ast.parse(sums[0].value).body[0].value
     except SyntaxError:
         return None
+    assigned = {n.id for n in ast.walk(f.node) if isinstance(n, ast.Name) and isinstance(n.ctx, ast.Store)}
+    if any(isinstance(n, ast.Name) and n.id in assigned and n.id not in f.params for n in ast.walk(expr)):
+        return None  # a local of the helper survives in the result: not a pure expression of the arguments
     _INLINE_CACHE[key] = (f.params, expr)
     return _INLINE_CACHE[key]
 
@@ -514,6 +517,7 @@ def summarise(fn, body=None, keep=(), limit=4000, inline=True):
     for p in enum_paths(stmts, limit=limit):
         env = dict(outer)
         dirty = set()
+        carried = []
         impure = set()
         facts = set()
         effects = []
@@ -545,8 +549,19 @@ def summarise(fn, body=None, keep=(), limit=4000, inline=True):
                 st = ev[1]
                 if isinstance(st, ast.Pass):
                     continue
-                if isinstance(st, ast.Assign) and len(st.targets) == 1 and isinstance(st.targets[0], ast.Name) and any(isinstance(x, ast.Name) and x.id == st.targets[0].id for x in ast.walk(sub(st.value))):
+                if isinstance(st, ast.Assign) and len(st.targets) == 1 and isinstance(st.targets[0], ast.Name) and any(isinstance(x, ast.Name) and x.id in (st.targets[0].id, "__orig_" + st.targets[0].id) for x in ast.walk(sub(st.value))):
                     nm = st.targets[0].id
+                    if body is not None and nm not in dirty and (nm not in env or nm in carried) and not paths_written(ast.Expr(value=st.value)):
+                        # block mode: a name updated from its own previous value (expr = expr / x) is accumulated:
+                        # its value on entry of the block is the protected name, the final value is reported at the end
+                        v = sub(st.value)
+                        if nm not in carried:
+                            for x in ast.walk(v):
+                                if isinstance(x, ast.Name) and x.id == nm:
+                                    x.id = "__orig_" + nm
+                            carried.append(nm)
+                        env[nm] = v
+                        continue
                     if nm in real_params and body is None and nm not in dirty and nm not in env:
                         # a parameter is given a new value computed from its original value: the name inside the
                         # new value denotes the argument as passed in (protected from further substitution)
@@ -589,6 +604,13 @@ def summarise(fn, body=None, keep=(), limit=4000, inline=True):
                     impure.add(st.targets[0].id)
                     continue
                 w = paths_written(st)
+                for k in list(carried):
+                    if k in w and k in env:
+                        # the accumulated value is materialised before a statement that updates the name in place
+                        effects.append(f"{k} = {norm(env[k])}")
+                        env.pop(k)
+                        carried.remove(k)
+                        dirty.add(k)
                 effects.append(norm(sub(st)))
                 for k in list(impure):
                     env.pop(k, None)
@@ -605,6 +627,9 @@ def summarise(fn, body=None, keep=(), limit=4000, inline=True):
             elif ev[0] == "raise":
                 kind = "raise"
                 value = norm(sub(ev[1].exc)) if ev[1].exc is not None else "raise"
+        for nm in carried:
+            if nm in env:
+                effects.append(f"{nm} = {norm(env[nm])}")
         unmark = lambda t: t.replace("__orig_", "") if isinstance(t, str) else t
         facts = {(unmark(t), tr) for t, tr in facts}
         value = unmark(value)
